@@ -978,4 +978,210 @@ theorem strop_valueError {cfg : Cfg} {tok ty : Str} (h : strop cfg tok ty = .err
           · cases he
           · split at he <;> cases he
 
+/-! ### relocation: a context created late in a process is the context of a fresh process, shifted -/
+
+def relocEntries (off : Nat) (es : List (Str × Leaf)) : List (Str × Leaf) := es.map (fun e => (e.1, relocLeaf off e.2))
+
+theorem relocVal_dict (off : Nat) (es : List (Str × Leaf)) : relocVal off (.dict es) = .dict (relocEntries off es) := rfl
+
+theorem aget_relocSec (off : Nat) (sec : Section) (k : Str) : aget (relocSec off sec) k = (aget sec k).map (relocVal off) := by
+  induction sec with
+  | nil => simp [relocSec, aget]
+  | cons e rest ih =>
+    obtain ⟨k', v⟩ := e
+    have : relocSec off ((k', v) :: rest) = (k', relocVal off v) :: relocSec off rest := by simp [relocSec]
+    rw [this]
+    by_cases hk : k' = k
+    · simp [aget, hk]
+    · simp [aget, hk, ih]
+
+theorem leafStr_reloc (off : Nat) (l : Leaf) : leafStr (relocLeaf off l) = leafStr l := by
+  cases l <;> rfl
+
+theorem getStr_reloc (off : Nat) (sec : Section) (k : Str) (d : Option Str) : getStr (relocSec off sec) k d = getStr sec k d := by
+  unfold getStr
+  rw [aget_relocSec]
+  cases aget sec k with
+  | none => rfl
+  | some v =>
+    cases v with
+    | leaf l => simp [relocVal, leafStr_reloc]
+    | dict es => simp [relocVal]
+
+theorem getBool_reloc (off : Nat) (sec : Section) (k : Str) (d : Bool) : getBool (relocSec off sec) k d = getBool sec k d := by
+  unfold getBool
+  rw [getStr_reloc]
+
+theorem readScalars_reloc (off : Nat) (sec : Section) : readScalars (relocSec off sec) = readScalars sec := by
+  unfold readScalars
+  simp only [getStr_reloc, getBool_reloc]
+
+theorem getList_reloc (off : Nat) (sec : Section) (k : Str) : getList (relocSec off sec) k = (getList sec k).map (· + off) := by
+  unfold getList
+  rw [aget_relocSec]
+  cases aget sec k with
+  | none => rfl
+  | some v =>
+    cases v with
+    | dict es => simp [relocVal]
+    | leaf l => cases l <;> simp [relocVal, relocLeaf]
+
+theorem getDict_reloc (off : Nat) (sec : Section) (k : Str) : getDict (relocSec off sec) k = relocEntries off (getDict sec k) := by
+  unfold getDict
+  rw [aget_relocSec]
+  cases aget sec k with
+  | none => simp [relocEntries]
+  | some v =>
+    cases v with
+    | dict es => simp [relocVal, relocEntries]
+    | leaf l => simp [relocVal, relocEntries]
+
+theorem get_shift (pre h : Heap) (a : Nat) : (pre ++ h)[a + pre.length]? = h[a]? := by
+  rw [List.getElem?_append_right (by omega)]
+  simp
+
+theorem buildMap_reloc (compile : Str → Option Re) (pre h : Heap) (es : List (Str × Leaf)) (m : List (Str × List Re))
+    (anyl : List Re) :
+    buildMap compile (pre ++ h) (relocEntries pre.length es) m anyl = buildMap compile h es m anyl := by
+  induction es generalizing m anyl with
+  | nil => simp [relocEntries, buildMap]
+  | cons e rest ih =>
+    obtain ⟨k, l⟩ := e
+    have hc : relocEntries pre.length ((k, l) :: rest) = (k, relocLeaf pre.length l) :: relocEntries pre.length rest := by
+      simp [relocEntries]
+    rw [hc]
+    cases l with
+    | list a =>
+      simp only [relocLeaf, buildMap, get_shift]
+      cases h[a]? with
+      | none => rfl
+      | some srcs =>
+        simp only
+        cases compileAll compile srcs with
+        | none => rfl
+        | some ps =>
+          simp only
+          split
+          · rfl
+          · exact ih _ _
+    | str s => simp [relocLeaf, buildMap]
+    | null => simp [relocLeaf, buildMap]
+    | bool b => simp [relocLeaf, buildMap]
+    | num n => simp [relocLeaf, buildMap]
+    | other => simp [relocLeaf, buildMap]
+
+theorem resolvedReserved_reloc (pre h : Heap) (sec : Section) (add : Option (List Str)) :
+    resolvedReserved (pre ++ h) (relocSec pre.length sec) add = resolvedReserved h sec add := by
+  unfold resolvedReserved
+  rw [getList_reloc]
+  cases getList sec kReserved with
+  | none => rfl
+  | some a => simp only [Option.map_some, get_shift]
+
+/-- The tables do not depend on where in the heap the configuration's list objects live. -/
+theorem assemble_reloc (space : List (Nat × Nat)) (compile : Str → Option Re) (pre h : Heap) (sec : Section) (lc : LangCode) :
+    assemble space compile (pre ++ h) (relocSec pre.length sec) lc = assemble space compile h sec lc := by
+  rw [assemble_eq_closed, assemble_eq_closed]
+  unfold assembleClosed
+  rw [getDict_reloc, getDict_reloc, buildMap_reloc, buildMap_reloc, resolvedReserved_reloc, readScalars_reloc]
+
+theorem dset_map {α β : Type} (f : α → β) (m : List (Str × α)) (k : Str) (v : α) :
+    (dset m k v).map (fun e => (e.1, f e.2)) = dset (m.map (fun e => (e.1, f e.2))) k (f v) := by
+  induction m with
+  | nil => simp [dset]
+  | cons e rest ih =>
+    obtain ⟨k', v'⟩ := e
+    by_cases hk : k' = k
+    · simp [dset, hk]
+    · simp [dset, hk, ih]
+
+theorem relocSec_dset (off : Nat) (sec : Section) (k : Str) (v : CVal) :
+    relocSec off (dset sec k v) = dset (relocSec off sec) k (relocVal off v) := by
+  unfold relocSec
+  exact dset_map (relocVal off) sec k v
+
+theorem relocEntries_dset (off : Nat) (es : List (Str × Leaf)) (k : Str) (l : Leaf) :
+    relocEntries off (dset es k l) = dset (relocEntries off es) k (relocLeaf off l) := by
+  unfold relocEntries
+  exact dset_map (relocLeaf off) es k l
+
+theorem mergeEntries_reloc (off : Nat) (target src : List (Str × Leaf)) :
+    relocEntries off (mergeEntries target src) = mergeEntries (relocEntries off target) (relocEntries off src) := by
+  induction src generalizing target with
+  | nil => simp [mergeEntries, relocEntries]
+  | cons e rest ih =>
+    obtain ⟨k, l⟩ := e
+    have hc : relocEntries off ((k, l) :: rest) = (k, relocLeaf off l) :: relocEntries off rest := by simp [relocEntries]
+    rw [hc]
+    simp only [mergeEntries]
+    rw [ih, relocEntries_dset]
+
+theorem allocEntries_shift (pre h : Heap) (es : List (Str × List Str)) :
+    allocEntries (pre ++ h) es = (pre ++ (allocEntries h es).1, relocEntries pre.length (allocEntries h es).2) := by
+  induction es generalizing h with
+  | nil => simp [allocEntries, relocEntries]
+  | cons e rest ih =>
+    obtain ⟨k, xs⟩ := e
+    simp only [allocEntries]
+    rw [List.append_assoc, ih (h ++ [xs])]
+    simp [relocEntries, relocLeaf, Nat.add_comm]
+
+theorem applyOverride_shift (pre h : Heap) (sec : Section) (k : Str) (v : OVal) :
+    applyOverride (pre ++ h) (relocSec pre.length sec) k v =
+      (pre ++ (applyOverride h sec k v).1, relocSec pre.length (applyOverride h sec k v).2) := by
+  cases v with
+  | str s => simp [applyOverride, relocSec_dset, relocVal, relocLeaf]
+  | bool b => simp [applyOverride, relocSec_dset, relocVal, relocLeaf]
+  | num n => simp [applyOverride, relocSec_dset, relocVal, relocLeaf]
+  | list xs => simp [applyOverride, relocSec_dset, relocVal, relocLeaf, Nat.add_comm]
+  | dict es =>
+    simp only [applyOverride, allocEntries_shift, aget_relocSec]
+    have hnil : relocEntries pre.length [] = [] := rfl
+    cases aget sec k with
+    | none => simp [relocSec_dset, relocVal_dict, mergeEntries_reloc, hnil]
+    | some cv =>
+      cases cv with
+      | leaf l =>
+        have hl : relocVal pre.length (.leaf l) = .leaf (relocLeaf pre.length l) := rfl
+        simp [relocSec_dset, hl, relocVal_dict, mergeEntries_reloc, hnil]
+      | dict old => simp [relocSec_dset, relocVal_dict, mergeEntries_reloc]
+
+theorem applyOverrides_shift (pre h : Heap) (sec : Section) (ov : List (Str × OVal)) :
+    applyOverrides (pre ++ h) (relocSec pre.length sec) ov =
+      (pre ++ (applyOverrides h sec ov).1, relocSec pre.length (applyOverrides h sec ov).2) := by
+  induction ov generalizing h sec with
+  | nil => simp [applyOverrides]
+  | cons e rest ih =>
+    obtain ⟨k, v⟩ := e
+    simp only [applyOverrides, applyOverride_shift]
+    exact ih _ _
+
+/-- `load` anywhere in a history = `standalone`, shifted by the size of the heap at that moment. -/
+theorem load_eq_standalone (env : Env) (p : Proc) (target : Str) (ov : List (Str × OVal)) :
+    (standalone env target ov = none ∧ load env p target ov = .error .keyError) ∨
+    (∃ h0 s0, standalone env target ov = some (h0, s0) ∧
+      load env p target ov = .ok (Proc.mk (p.heap ++ h0)
+        (p.ctxs ++ [Ctx.mk (s0.map (fun e => (e.1, relocSec p.heap.length e.2))) []]) p.encoders p.lru p.hits p.misses)) := by
+  unfold standalone load
+  simp only [aget_map_reloc]
+  cases aget env.doc.sections target with
+  | none => exact Or.inl ⟨rfl, rfl⟩
+  | some tsec =>
+    refine Or.inr ⟨_, _, rfl, ?_⟩
+    simp only [Option.map_some, applyOverrides_shift]
+    rw [dset_map (relocSec p.heap.length)]
+
+theorem pureAnswer_reloc (env : Env) (pre h : Heap) (secs : List (Str × Section)) (lang : Str) (inst : Inst) (ty : Str) :
+    pureAnswer env (pre ++ h) (secs.map (fun e => (e.1, relocSec pre.length e.2))) lang inst ty =
+      pureAnswer env h secs lang inst ty := by
+  unfold pureAnswer
+  rw [aget_map_reloc]
+  cases aget secs lang with
+  | none => rfl
+  | some sec =>
+    simp only [Option.map_some]
+    cases env.code lang with
+    | none => rfl
+    | some lc => simp only [assemble_reloc]
+
 end NunavutVerif.StropGlue
